@@ -215,6 +215,11 @@ func (x *Exec) fieldRead(st *State, sname, path string, t types.Type, ref string
 func (x *Exec) fieldWrite(st *State, sname, path string, t types.Type, ref string, v *Val) {
 	e := x.e
 	x.lockAccess(st, sname, path, ref, "write")
+	if own, ok := x.e.db.Owner[sname+"."+path]; ok && own != x.top.Key && x.vc.quiet == 0 {
+		if _, mine := x.owned[ref]; !mine || x.escaped[ref] {
+			x.ownerViolations = append(x.ownerViolations, fmt.Sprintf("write of %s.%s at %s: the field is only written by the goroutine of %s", sname, path, x.e.pos(x.curPos), own))
+		}
+	}
 	if _, mine := x.owned[ref]; !mine || x.escaped[ref] {
 		x.escapes(v)
 	} else if v != nil && v.K == KInt {
